@@ -141,7 +141,16 @@ def get_count__total_expansion__c2c_expansion(length, total_expansion, c2c_expan
             f"\n\tTolerance: {constants.TOL}"
         )
 
-    return int(np.log(total_expansion) / np.log(c2c_expansion)) + 1
+    count = np.log(total_expansion) / np.log(c2c_expansion)
+
+    if count < 0:
+        raise ValueError(
+            "Total and cell-to-cell expansion contradict each other:"
+            f"\n\tTotal expansion ratio: {total_expansion}"
+            f"\n\tCell-to-cell expansion ratio: {c2c_expansion}"
+        )
+
+    return int(count) + 1
 
 
 def get_count__total_expansion__start_size(length, total_expansion, start_size):
